@@ -132,6 +132,33 @@ def r19_presets(rep, M, rid_nan, rid_tab):
                           "elements that do have a vdW radius get their covalent radius", M.where(GET_RADII, (whole or body)[0]))
             return
         raise AnalysisError("get_radii 'vdw_covalent': selection construct (conditional expression / np.where) not found")
+    # the elementwise selection covers the whole table (every atomic number the presets know)
+    for st in body:
+        for comp in [c for c in ast.walk(st) if isinstance(c, (ast.ListComp, ast.GeneratorExp))]:
+            if not any(x[4] in list(ast.walk(comp)) for x in sel):
+                continue
+            it = comp.generators[0].iter
+            construct = "get_radii 'vdw_covalent' table range"
+            if comp.generators[0].ifs or len(comp.generators) != 1:
+                rep.violation(rid_tab, construct, f"`{norm(comp)[:80]}` filters elements: the combined table is no longer indexed by atomic number",
+                              M.where(GET_RADII, comp))
+            elif isinstance(it, ast.Call) and isinstance(it.func, ast.Name) and it.func.id == "range":
+                full = (len(it.args) == 1 or (len(it.args) == 2 and isinstance(it.args[0], ast.Constant) and it.args[0].value == 0))
+                stop = it.args[-1] if len(it.args) <= 2 else None
+                whole = (full and isinstance(stop, ast.Call) and isinstance(stop.func, ast.Name) and stop.func.id == "len" and len(stop.args) == 1
+                         and data_names(M, GET_RADII, stop.args[0]) <= {COV, VDW} and isinstance(stop.args[0], ast.Name))
+                if whole:
+                    rep.ok(rid_tab, construct + f": `{norm(it)}` covers every tabulated element")
+                else:
+                    rep.violation(rid_tab, construct, f"`{norm(it)}` does not run over the whole table: the elements left out (the heaviest ones for a shortened "
+                                  "range) raise IndexError or read another element's radius with this preset while the same numbers passed as a custom array work",
+                                  M.where(GET_RADII, it))
+            elif any(isinstance(x, ast.Subscript) for x in ast.walk(it)):
+                rep.violation(rid_tab, construct, f"`{norm(it)}` iterates a part of the tables", M.where(GET_RADII, it))
+            elif data_names(M, GET_RADII, it) and data_names(M, GET_RADII, it) <= {COV, VDW}:
+                rep.ok(rid_tab, construct + f": `{norm(it)}` iterates the tables themselves")
+            else:
+                raise AnalysisError(f"get_radii 'vdw_covalent': iteration `{norm(it)}` of the elementwise selection not recognised")
     for kind, cond, a, b, node in sel:
         pred = nan_predicate(M, GET_RADII, cond)
         construct = "get_radii 'vdw_covalent' fallback test"
@@ -257,6 +284,34 @@ def r19_4(rep, M, rid):
         rep.ok(rid, f"{name}: no use of the unresolved radii argument outside get_radii")
 
 
+def r19_8(rep, M, rid):
+    CLS = "matid.classification.classifier.Classifier"
+    FQ = CLS + ".classify"
+    init = M.func(CLS + ".__init__")
+    if "radii" not in M.params(CLS + ".__init__"):
+        rep.ok(rid, "Classifier has no radii option")
+        return
+    stored = [t.attr for a in ast.walk(init) if isinstance(a, ast.Assign) and isinstance(a.value, ast.Name) and a.value.id == "radii"
+              for t in a.targets if isinstance(t, ast.Attribute) and isinstance(t.value, ast.Name) and t.value.id == "self"]
+    if not stored:
+        rep.violation(rid, "Classifier.__init__: radii", "the documented `radii` option is not stored", M.where(CLS + ".__init__"))
+        return
+    attr = "self." + stored[0]
+    n = 0
+    for callee in (GEO + ".get_distances", GEO + ".get_dimensionality"):
+        for c in M.calls_to(FQ, callee):
+            n += 1
+            a = M.bind_args(callee, c).get("radii")
+            if a is not None and norm(a) == attr:
+                rep.ok(rid, f"classify: {callee.split('.')[-1]}(..., radii={attr})")
+            else:
+                rep.violation(rid, f"classify: {callee.split('.')[-1]} radii", f"`{norm(c)[:70]}` does not receive {attr} (it gets "
+                              f"{norm(a) if a is not None else 'the default covalent radii'}): every preset and every custom array given to the Classifier behaves "
+                              "like 'covalent', while the same setting given to get_dimensionality / SBC changes the result", M.where(FQ, c))
+    if n < 2:
+        raise AnalysisError("classify: get_distances / get_dimensionality calls not found")
+
+
 def run(rep, ctx):
     M = ctx.model
     rep.explanation = ("contradiction rule for NaN comparisons over every comparison in the repo, resolved-import check "
@@ -278,6 +333,9 @@ def run(rep, ctx):
         r19_4(rep, M, "R19.4")
     with rep.guard("R19.5"):
         c13.r13_2(rep, M, "R19.5")
+    rep.rule("R19.8", "the Classifier honours its documented `radii` option: it reaches get_distances and get_dimensionality in classify")
+    with rep.guard("R19.8"):
+        r19_8(rep, M, "R19.8")
     rep.rule("R19.7", "get_dimensionality uses the resolved per-atom radii unchanged for the 2x supercell (tiled per copy) and for the cutoff")
     with rep.guard("R19.7"):
         from . import c09 as _c09
